@@ -14,11 +14,42 @@ def kind_of(p):
 
 
 def seg_match(pat, name):
-    """fnmatch for one path segment with `*` and `?` only (no classes); glob's rule that a
-    leading dot must be matched explicitly."""
+    """fnmatch for one path segment: `*`, `?` and `[seq]` / `[!seq]` classes with ranges (an
+    unterminated '[' is a literal character), plus glob's rule that a leading dot must be
+    matched explicitly."""
     if len(name) > 0 and name[0] == "." and not (len(pat) > 0 and pat[0] == "."):
         return False
     return _m(pat, 0, name, 0)
+
+
+def _class_end(pat, i):
+    """index of the ']' closing the class that starts at pat[i] == '[', or -1"""
+    j = i + 1
+    if j < len(pat) and pat[j] == "!":
+        j += 1
+    if j < len(pat) and pat[j] == "]":
+        j += 1
+    while j < len(pat) and not (pat[j] == "]"):
+        j += 1
+    return j if j < len(pat) else -1
+
+
+def _in_class(body, ch):
+    neg = len(body) > 0 and body[0] == "!"
+    if neg:
+        body = body[1:]
+    hit = False
+    k = 0
+    while k < len(body):
+        if k + 2 < len(body) and body[k + 1] == "-":
+            if body[k] <= ch <= body[k + 2]:
+                hit = True
+            k += 3
+        else:
+            if body[k] == ch:
+                hit = True
+            k += 1
+    return hit != neg
 
 
 def _m(pat, i, name, j):
@@ -33,6 +64,14 @@ def _m(pat, i, name, j):
             return False
         if j >= len(name):
             return False
+        if c == "[":
+            e = _class_end(pat, i)
+            if e >= 0:
+                if not _in_class(pat[i + 1:e], name[j]):
+                    return False
+                i = e + 1
+                j += 1
+                continue
         if not (c == "?") and not (c == name[j]):
             return False
         i += 1
